@@ -18,7 +18,6 @@
 (* NOTE: definitions only; all proofs are in Proofs/C04_*.v *)
 From CV Require Import Base.Tac Base.Cmp.
 From Coq Require Import QArith Qabs Reals.
-From Interval Require Import Tactic.
 Local Open Scope R_scope.
 
 (* ---------- generic ---------- *)
@@ -471,17 +470,3 @@ Definition lognormal_outside (x : list Q) : bool := existsb (fun v => Qle_bool v
 (* ---------- checks used by the generated case files ---------- *)
 Definition check_dec (model observed : bool) : bool := Bool.eqb model observed.
 
-(* reduce the list structure of a model term, leaving real arithmetic for `interval` *)
-Ltac c04_red :=
-  cbv [rsum rprod bc zip2 zip3 zip4 bcast2 map combine repeat length fold_right fst snd hd
-       normal_term normal_pdf1 normal_args normal_logpdf normal_pdf
-       laplace_pdf1 laplace_args laplace_logpdf
-       slap_term slap_pdf1 slap_args slap_logpdf
-       cauchy_term cauchy_pdf1 cauchy_cdf1 cauchy_args cauchy_logpdf cauchy_cdf
-       uniform_logpdf uniform_pdf1
-       gamma_term gamma_logpdf invgamma_term invgamma_logpdf beta_term beta_logpdf gam_half
-       mhn_doc_term mhn_getter_beta mhn_getter_gamma mhn_logpdf mhn_doc_logpdf
-       gauss_logupdf gauss_canon gd_sqrtprec gd_logdet1 gd_quad gd_logdet gauss_diag_logpdf lognormal_logpdf gauss_band_logdet
-       gmrf_logpdf lmrf_logpdf lmrf_pdf cmrf_logpdf INR].
-Ltac c04_encl := c04_red; interval with (i_prec 80).
-Ltac c04_both := split; [vm_compute; reflexivity | c04_encl].
